@@ -56,6 +56,7 @@ def modelStep (s : MState) (line : String) : MState × String :=
     | none =>
       match ws with
       | ["trickle", _] => (s, "none")   -- bytes that do not complete a frame: no message was received, nothing happens
+      | ["send", _] => (s, "none")      -- the LOCAL side writes a message: only what is received counts as activity of the peer
       | _ => (s, if ws == ["end"] then "end" else "bad-op")
 
 structure JState where
@@ -88,6 +89,9 @@ def judgeLine (s : JState) (line : String) : JState × String :=
     | ["trickle", _], some outs =>
       -- a message is a complete frame: bytes of an unfinished one neither trigger anything nor count as activity
       (s, if outs.isEmpty then "ok" else "violates bytes of an incomplete frame triggered a ping or a close")
+    | ["send", _], some outs =>
+      -- what this side sends is not a sign of life of the peer: nothing is triggered, nothing is refreshed (`last` stays)
+      (s, if outs.isEmpty then "ok" else "violates a message written by the local side triggered a ping or a close")
     | _, _ =>
     match parseEv (words inp), parseObs obs with
     | some ev, some outs =>
